@@ -1,12 +1,15 @@
 package wire
 
 import (
+	"bufio"
+	"bytes"
 	"errors"
 	"fmt"
 	"io"
 	"testing"
 
 	"github.com/bluenviron/gomavlib/v3/pkg/dialect"
+	"github.com/bluenviron/gomavlib/v3/pkg/frame"
 	"pgregory.net/rapid"
 
 	"verifharness/evid"
@@ -216,16 +219,38 @@ type feedResult struct {
 	cr   *chunkReader
 }
 
+// otherLinkFirst: before a keyed stream is read, another reader holding the same key object accepts a frame stamped
+// far ahead (set per case).
+var (
+	otherLinkFirst bool
+	otherLinkReads int
+)
+
 func feed(sc *streamCase, data []byte, sizes []int, failAt int, ferr error) (feedResult, error) {
 	cr := &chunkReader{data: data, sizes: sizes, failAt: failAt, err: ferr}
 	var drw = (*dialectInfo)(nil)
 	_ = drw
 	var res []result
 	var terr, herr error
+	ko := keyOf(sc.key)
+	if ko != nil && otherLinkFirst {
+		// another link of the application, given the same key object, has been reading for a while: its peer's clock
+		// is far ahead. What a reader yields is a function of its own stream.
+		f := ref.Frame{V2: true, Incompat: 1, Seq: 1, Sys: 3, Comp: 4, ID: 70001, Payload: []byte{1, 2}, Checksum: 0x4242, LinkID: 9, Timestamp: 1 << 47}
+		f.Sig = f.SignatureFor(*sc.key)
+		or := &frame.Reader{BufByteReader: bufio.NewReader(bytes.NewReader(f.Bytes())), InKey: ko}
+		if err := or.Initialize(); err != nil {
+			return feedResult{}, fmt.Errorf("BROKEN: %v", err)
+		}
+		if _, err := or.Read(); err != nil {
+			return feedResult{}, fmt.Errorf("BROKEN: the other link's frame was refused: %v", err)
+		}
+		otherLinkReads++
+	}
 	if sc.di != nil {
-		res, terr, herr = readAll(cr, sc.di.rw, keyOf(sc.key), len(data)+2)
+		res, terr, herr = readAll(cr, sc.di.rw, ko, len(data)+2)
 	} else {
-		res, terr, herr = readAll(cr, nil, keyOf(sc.key), len(data)+2)
+		res, terr, herr = readAll(cr, nil, ko, len(data)+2)
 	}
 	return feedResult{res, terr, cr}, herr
 }
@@ -435,11 +460,19 @@ func checkStreamSizes(t *rapid.T, sc *streamCase, rec *evid.Rec, fixedSizes []in
 
 func TestC05Streams(t *testing.T) {
 	rec := evid.New(t, "C05", "streams from a grammar (valid raw/dialect/signed frames, truncated frames, damaged checksum/signature/flags, junk with and without markers, glued frames) fed whole, byte-wise, in generated chunks and with a transport error injected at a generated offset; oracles: no panic, progress, consumed-span exactness against the reference, identical (kind,span) sequences across feedings, completeness on clean streams, the transport's own error surfaces; non-trivial = a delivered frame straddles a read boundary, or markers inside noise, or a truncated frame; distinct by hash of (stream, chunking)")
-	rec.Require("frame-straddles-read-boundary", "seg-markerjunk", "seg-truncated", "clean-stream", "keyed", "dialect", "fault-injected", "seg-badcrc", "seg-badsig", "seg-v1-wrong-length", "keyed-sender-clock-below-the-window-length", "seg-refused-under-key", "keyed-sender-clock-years-ahead")
+	rec.Require("frame-straddles-read-boundary", "seg-markerjunk", "seg-truncated", "clean-stream", "keyed", "dialect", "fault-injected", "seg-badcrc", "seg-badsig", "seg-v1-wrong-length", "keyed-sender-clock-below-the-window-length", "seg-refused-under-key", "keyed-sender-clock-years-ahead", "another-reader-with-the-same-key-object-far-ahead")
 	dpool := pool(t)
 	evid.Check(t, rec, evid.N(40000, 150000), func(t *rapid.T) {
 		drawBufSize(t)
 		sc := drawStream(t, dpool)
+		otherLinkFirst = rapid.IntRange(0, 3).Draw(t, "other_link_with_the_same_key_object_first") == 0
+		otherLinkReads = 0
+		defer func() {
+			if otherLinkReads > 0 {
+				rec.Class("another-reader-with-the-same-key-object-far-ahead", 1)
+			}
+			otherLinkFirst = false
+		}()
 		if err := checkStream(t, sc, rec); err != nil {
 			var ks []string
 			for _, s := range sc.segs {
